@@ -691,6 +691,7 @@ def via_client(app, holder, case, stack):
     hdrs = [(k.lower(), v) for k, v in result.headers.items()]
     obs = Obs(result.status_code, hdrs, result.content, holder.digests, holder.api_exc)
     obs.cookie_names = sorted(result.cookies)
+    obs.cookie_facts = {n: _cookie_facts_of_client(c) for n, c in result.cookies.items()}
     return obs
 
 
